@@ -344,6 +344,35 @@ func (p *Prog) checkGuardOnce(row GuardRow) GuardResult {
 	for _, f := range fs {
 		fields[f] = true
 	}
+	if len(unres) > 0 {
+		// guarded fields are gone: if the struct has fields that did not exist before, the state
+		// they held now lives there (a group of fields folded into one struct-typed field, a field
+		// split in two): the new fields are guarded instead
+		var fresh []*types.Var
+		for _, f := range p.FreshFields(row.Pkg, row.Type) {
+			ts := types.TypeString(f.Type(), nil)
+			if strings.HasPrefix(ts, "sync.") || strings.HasPrefix(ts, "*sync.") || strings.HasPrefix(ts, "sync/atomic.") {
+				continue
+			}
+			fresh = append(fresh, f)
+		}
+		if len(fresh) > 0 {
+			var nn []string
+			for _, f := range fresh {
+				fields[f] = true
+				nn = append(nn, f.Name())
+			}
+			note := row.Type + ".{" + strings.Join(unres, ",") + "} replaced by new field(s) {" + strings.Join(nn, ",") + "}, guarded instead"
+			seen := false
+			for _, x := range p.Renamed {
+				seen = seen || x == note
+			}
+			if !seen {
+				p.Renamed = append(p.Renamed, note)
+			}
+			unres = nil
+		}
+	}
 	for _, u := range unres {
 		res.Unresolved = append(res.Unresolved, row.Type+"."+u)
 	}
@@ -459,6 +488,34 @@ func (p *Prog) checkGuardOnce(row GuardRow) GuardResult {
 					case *ssa.UnOp:
 					case *ssa.DebugRef:
 						continue
+					case *ssa.FieldAddr:
+						// a member of a struct-typed guarded field: written iff the member is
+						write = addrWritten(rr, 0)
+						if !write {
+							res.Accesses++
+							if ls := get()[r]; !ls.Holds(need, false) && !onWriter {
+								res.Violations = append(res.Violations, GuardViolation{Fn: fn, Instr: r, Field: f.Name(), Need: need, Have: ls})
+							}
+							continue
+						}
+					case *ssa.Call:
+						// &x.f handed to a method: written iff the method writes through it
+						write = true
+						if cal := rr.Call.StaticCallee(); cal != nil && cal.Blocks != nil && InRepo(cal) {
+							write = false
+							for i, a := range rr.Call.Args {
+								if a == ssa.Value(fa) && (i >= len(cal.Params) || addrWritten(cal.Params[i], 1)) {
+									write = true
+								}
+							}
+						}
+						if !write {
+							res.Accesses++
+							if ls := get()[r]; !ls.Holds(need, false) && !onWriter {
+								res.Violations = append(res.Violations, GuardViolation{Fn: fn, Instr: r, Field: f.Name(), Need: need, Have: ls})
+							}
+							continue
+						}
 					default:
 						// address taken (method call on the field value, e.g. atomic or nested struct)
 						write = true
@@ -559,4 +616,52 @@ func elemAccess(u ssa.Instruction, container ssa.Value) (write bool, access bool
 		}
 	}
 	return false, false
+}
+
+// addrWritten: the address v (a member of a struct reached through nested
+// FieldAddr/IndexAddr) is stored through, or escapes.
+func addrWritten(v ssa.Value, depth int) bool {
+	refs := v.Referrers()
+	if refs == nil || depth > 4 {
+		return true
+	}
+	for _, r := range *refs {
+		switch rr := r.(type) {
+		case *ssa.Store:
+			if rr.Addr == v {
+				return true
+			}
+			return true // the address itself is stored somewhere
+		case *ssa.UnOp, *ssa.DebugRef:
+		case *ssa.FieldAddr:
+			if addrWritten(rr, depth+1) {
+				return true
+			}
+		case *ssa.IndexAddr:
+			if addrWritten(rr, depth+1) {
+				return true
+			}
+		case *ssa.Call:
+			// handed to a function of the repository (a pointer-receiver method of the member): written
+			// iff that function writes through the parameter
+			cal := rr.Call.StaticCallee()
+			if cal == nil || cal.Blocks == nil || rr.Call.IsInvoke() {
+				return true
+			}
+			for i, a := range rr.Call.Args {
+				if a == v && (i >= len(cal.Params) || addrWritten(cal.Params[i], depth+1)) {
+					return true
+				}
+			}
+		default:
+			return true
+		}
+	}
+	return false
+}
+
+// InRepo: fn is declared in the analysed module.
+func InRepo(fn *ssa.Function) bool {
+	pk := FuncPkg(fn)
+	return pk != nil && strings.HasPrefix(pk.Path(), ModPath)
 }
